@@ -117,6 +117,14 @@ class StochasticAtomGraph:
                                     raise RuntimeError("Expected a SmilesToken") from exc
                                 exclude_transition_into_terminal = True
 
+                            # Exclude exit out of a terminal group, they do not continue the molecule
+                            try:
+                                if bd_lhs_idx >= len(element_lhs.repeat_tokens):
+                                    exclude_transition_into_terminal = False
+                            except AttributeError as exc:
+                                if not isinstance(element_lhs, SmilesToken):
+                                    raise RuntimeError("Expected a SmilesToken") from exc
+
                             if exclude_transition_into_terminal:
                                 first_atom = (
                                     self.node_offset_list[element_lhs_i][bd_lhs_idx]
